@@ -29,7 +29,7 @@ def MutOp.ArgsWF : MutOp ν → Prop
   | _ => True
 
 /-- nested populate loops keep the destination well-formed -/
-theorem popNest_wf (dflt : ν) (leafF : List Int → ν → ν → ν) (skip : List Int → Bool) :
+theorem popNest_wf (dflt : ν) (leafF : List Int → ν → ν → ν) (skip : List Int → Inner Int) :
     ∀ (d : Nat) (pre : List Int) (z a : Tree Int ν (d + 1)), WF (d + 1) z → WF (d + 1) a →
       WF (d + 1) (popNest dflt leafF skip d pre z a)
   | 0, pre, z, a, hz, ha => by
@@ -39,9 +39,15 @@ theorem popNest_wf (dflt : ν) (leafF : List Int → ν → ν → ν) (skip : L
     simp only [popNest]
     apply populate_wf dflt (d + 1) _ z _ _ hz (present_sorted ha.sorted)
     intro c cur bp hmem hcur
-    by_cases hs : skip (pre ++ [c]) = true
-    · simp only [hs, if_true]; exact hcur
-    · simp only [hs, Bool.false_eq_true, if_false]
+    cases hs : skip (pre ++ [c]) with
+    | skip => exact hcur
+    | touch c' =>
+      refine ⟨posrefF_sorted _ _ c' hcur.sorted, ?_⟩
+      intro e he
+      rcases posrefF_mem _ _ c' e he with h1 | h1
+      · exact hcur.sub e h1
+      · rw [h1]; exact wf_defaultTree dflt d
+    | recurse =>
       exact popNest_wf dflt leafF skip d (pre ++ [c]) cur bp hcur (ha.sub _ (mem_present.1 hmem).1)
 
 theorem denseRefF_wf (dflt : ν) (d : Nat) (cs : List Int) : ∀ (f : Tree Int ν (d + 1)), WF (d + 1) f →
